@@ -7,6 +7,7 @@ reward amount, the timestamp, and the presence of the block in served state / st
 import contextlib
 import io
 import json
+import os
 
 import chaingen
 import common
@@ -253,6 +254,106 @@ def scenario(ck, trial, tier, reqs_assembly, reqs_node, clock_offsets=(-500, -1,
                     MI.time = old_time
 
 
+def mine_one(sn, net, keys, tg, head, after_watcher=None):
+    """let the node's own miner (real MinerWatcher handlers, in-process) find and adopt one block on the served head;
+    returns the chaingen.Node of the found block, or None"""
+    from skepticoin import mining as MI
+    from skepticoin import consensus as C
+    from skepticoin.wallet import Wallet
+    from skepticoin.datatypes import Block, BlockHeader
+    old_time = getattr(MI, 'time', None)
+    if old_time is not None:
+        MI.time = net.clock
+    try:
+        wallet = Wallet({pk: sk.to_string() for pk, sk in keys.by_pk.items()}, list(keys.pks), {})
+        with contextlib.redirect_stdout(io.StringIO()):
+            mw = make_watcher(sn, wallet, net.clock)
+        net.clock.t = max(net.clock.t, head.view.time + 1)
+        if after_watcher is not None:
+            # the miner has already fetched work once; then something happens on the network side
+            sn.node.activate()
+            with contextlib.redirect_stdout(io.StringIO()):
+                mw.handle_request_scrypt_input_message(0, 999999)
+            after_watcher()
+        for nonce in range(20000):
+            sn.node.activate()
+            with contextlib.redirect_stdout(io.StringIO()):
+                mw.handle_request_scrypt_input_message(0, nonce)
+            typ, (summary, height) = mw.send_queues[0].items[-1]
+            txs = mw.mining_args[0][-1]
+            sh = C.construct_summary_hash(summary, height)
+            ev = C.construct_pow_evidence_after_scrypt(sh, mw.coinstate, summary, height, txs)
+            cand = Block(BlockHeader(summary, ev), txs)
+            with contextlib.redirect_stdout(io.StringIO()):
+                mw.handle_scrypt_output_message(0, sh)
+            sn.pump()
+            if cand.hash() < cand.target:
+                bv = spec.BlockView(cand)
+                node = chaingen.Node(cand, head, spec.apply_block(head.utxo, bv))
+                tg.nodes.append(node)
+                return node
+        return None
+    finally:
+        if old_time is not None:
+            MI.time = old_time
+
+
+def pool_then_mine_scenario(ck, trial, tier, tz=None):
+    """a pending transaction survives a head change; a conflicting spend is then offered (and must be refused); then the miner
+    assembles from what the pool holds and finds a block: it is adopted.  Optionally the process runs in a time zone west of UTC
+    (the candidate's clock is the epoch clock, not a local-time conversion)"""
+    import time as _time
+    from skepticoin.networking import messages as M
+    rng = ck.rng
+    keys = chaingen.Keys()
+    old_tz = os.environ.get('TZ')
+    if tz:
+        os.environ['TZ'] = tz
+        _time.tzset()
+    try:
+        with chaingen.Env(period=50) as env:
+            tg = chaingen.TreeGen(env, keys, rng)
+            n = tg.genesis
+            for _ in range(4):
+                n = tg.extend(n, txs=[], fees=0, dt=100)
+            main = list(tg.nodes)
+            with simnet.Net(seed=rng.getrandbits(30), t0=n.view.time + 50) as net:
+                sn = nodeharness.SingleNode(net, chaingen.impl_state_from(main), [m.block for m in main[1:]], npeers=2)
+                sn.new_messages()
+                av = sorted(tg.spendable(n))
+                (r0, (v0, _pk)) = av[0]
+                t1 = chaingen.signed_tx(keys, n.utxo, [r0], [(v0, keys.pks[1])])
+                t2 = chaingen.signed_tx(keys, n.utxo, [r0], [(v0 - 1, keys.pks[2])])
+                sn.deliver(0, M.DataMessage(M.DATA_TRANSACTION, t1))
+                nb = tg.extend(n, txs=[], fees=0, dt=100)                  # head change that leaves t1 pending
+                net.clock.t = max(net.clock.t, nb.view.time + 1)
+                sn.deliver(1, M.DataMessage(M.DATA_BLOCK, nb.block))
+                sn.deliver(1, M.DataMessage(M.DATA_TRANSACTION, t2))       # conflicts with t1
+                rp = {'scripted': 'pending tx | head change | conflicting tx | mine', 'trial': trial, 'tz': tz}
+                try:
+                    found = mine_one(sn, net, keys, tg, nb)
+                except Exception as e:
+                    ck.violation('found-block-handler-raises', 'with a pending transaction, a head change and a conflicting spend offered '
+                                 'afterwards%s, the found-block handler raises %s: %s' % (' (TZ=%s)' % tz if tz else '', type(e).__name__, str(e)[:120]), rp)
+                    return
+                ck.case(('pool-then-mine', trial, tz), kind='pool-then-mine%s' % ('/tz-west-of-utc' if tz else ''))
+                st = sn.observe()
+                if found is None:
+                    return
+                if found.id not in st['blocks'] or found.id not in st['rows']:
+                    ck.violation('found-block-not-in-served-state', 'the found block is not adopted / stored%s' % (' (TZ=%s)' % tz if tz else ''), rp)
+                if found.view.time > net.clock() + 30 or found.view.time <= nb.view.time:
+                    ck.violation('timestamp-not-after-parent', 'candidate timestamp %d, parent %d, clock %d%s'
+                                 % (found.view.time, nb.view.time, net.clock(), ' (TZ=%s)' % tz if tz else ''), rp)
+    finally:
+        if tz:
+            if old_tz is None:
+                os.environ.pop('TZ', None)
+            else:
+                os.environ['TZ'] = old_tz
+            _time.tzset()
+
+
 def stale_result_scenario(ck, trial, tier):
     """the miner thread's winning result arrives for a candidate handed out BEFORE the network thread adopted 0, 1 or 2
     peer blocks (optionally another worker has asked for work on the new head in between): the found block -- valid on its
@@ -411,6 +512,14 @@ def run(tier, seed):
             tb = traceback.format_exc()
             if 'could not mine a block' not in tb:
                 ck.disagree('stale-result scenario %d crashed: %s' % (trial, tb[-600:]), {'trial': trial})
+    for trial, tz in ((0, None), (1, 'PST8PDT'), (2, 'America/New_York')):
+        try:
+            pool_then_mine_scenario(ck, trial, tier, tz=tz)
+        except Exception:
+            import traceback
+            tb = traceback.format_exc()
+            if 'could not mine a block' not in tb:
+                ck.disagree('pool-then-mine scenario crashed: %s' % tb[-500:], {'trial': trial})
     # what the miner assembles from is the pool the chain manager hands it: admission on the network thread interleaved
     # with the miner thread installing its found block must leave that pool valid at the head (C13's thread probes)
     try:
